@@ -168,6 +168,9 @@ func (c *SCIONClient) measureClockOffsetSCION(ctx context.Context, mtrcs *scionC
 
 	localPort := conn.LocalAddr().(*net.UDPAddr).Port
 
+	remoteHost := *remoteAddr.Host
+	remoteAddr.Host = &remoteHost
+
 	var ntskeData ntske.Data
 	if c.Auth.NTSEnabled {
 		ntskeData, err = c.Auth.NTSKEFetcher.FetchData(ctx)
